@@ -77,7 +77,7 @@ class GetterProfile(StoreProfile):
         if rng.random() < 0.5:
             attrs = rng.sample(ATTR_KEYS + ["missing_key", "sid"], rng.randint(1, 3))
         party = rng.choice(["GP:" + cfg, "GP:" + cfg, "GA"])
-        return {"op": "get", "party": party, "s": s, "attributes": attrs, "enc": rng.choice(ENCODERS)}
+        return {"op": "get", "party": party, "s": s, "attributes": attrs, "enc": rng.choice(ENCODERS), "held": rng.random() < 0.4}
 
     def apply(self, run, step):
         if self.apply_common(run, step):
@@ -92,6 +92,8 @@ class GetterProfile(StoreProfile):
         else:
             cfg = party.split(":", 1)[1]
             G, F = X.call("GetFromPaths", cfg), X.call("FindInPaths", cfg)
+        if step.get("held"):
+            G = X.held(G)      # the Getter instance the client keeps across calls
         E = X.call(enc)
         kw = {"sid_encode": E}
         if attrs is not None:
